@@ -207,10 +207,13 @@ func c07RenderSource(r *fw.Rand, src string, cues []ncue) (data []byte, stlOpen 
 				if m.G.DSC != "0" {
 					sc.tf = append(sc.tf, 0x0b, 0x0b)
 				}
+				// the choice between a space and a spacing attribute is a function of the line's text: two cues with the
+				// same text must stay identical for Unfragment (its text identity is the concatenation of the runs)
+				lr := fw.NewRand(fw.HashString(l))
 				for wi, w := range strings.Split(l, " ") {
 					if wi > 0 {
-						if r.P(1, 3) {
-							sc.tf = append(sc.tf, byte(0x80+r.Intn(4))) // a spacing attribute instead of a space
+						if lr.P(1, 3) {
+							sc.tf = append(sc.tf, byte(0x80+lr.Intn(4))) // a spacing attribute instead of a space
 						} else {
 							sc.tf = append(sc.tf, ' ')
 						}
@@ -659,9 +662,9 @@ func fmtNeutral(cs []ncue) string {
 
 func init() {
 	fw.Register(&fw.Property{
-		ID:    "C07",
-		Level: "exploration",
-		Rule: "case = (source format, destination format) cycling over all 7 x 6 pairs; a random start-ordered neutral cue list (1..6 cues on a 200 ms grid so that every format can express it exactly, overlaps, abutting cues, repeated texts, 1..2 lines) is rendered into a styled, metadata-bearing source document by the C01-C06 renderers (SRT runs with markup, WebVTT with regions/settings/voices/tags, TTML with styles/regions/attributes, SSA with styles/override blocks, STL at 25/30 fps with any display standard and programme-start offset, teletext TS with one page instance per cue), written to a file whose extension has random letter case, then converted through OpenFile + 0..4 operations (sync, fragment, unfragment, merge with a second document, optimize, order, linear correction last) + Write, or (every 7th round) through the CLI binary built from /repo (convert, sync, fragment, unfragment, merge, optimize, apply-linear-correction). Oracle: the composed executable specifications of C09-C15 applied to the neutral list, truncated to the destination's resolution (ms; cs for ssa/ass; frame for stl, +-1 ns), compared with the destination re-read through OpenFile: count, order, start, end, and text per line with all white space removed; an empty result must give the nothing-to-write error. distinct_nontrivial = distinct (document, destination, operations) cases.",
+		ID:          "C07",
+		Level:       "exploration",
+		Rule:        "case = (source format, destination format) cycling over all 7 x 6 pairs; a random start-ordered neutral cue list (1..6 cues on a 200 ms grid so that every format can express it exactly, overlaps, abutting cues, repeated texts, 1..2 lines) is rendered into a styled, metadata-bearing source document by the C01-C06 renderers (SRT runs with markup, WebVTT with regions/settings/voices/tags, TTML with styles/regions/attributes, SSA with styles/override blocks, STL at 25/30 fps with any display standard and programme-start offset, teletext TS with one page instance per cue), written to a file whose extension has random letter case, then converted through OpenFile + 0..4 operations (sync, fragment, unfragment, merge with a second document, optimize, order, linear correction last) + Write, or (every 7th round) through the CLI binary built from /repo (convert, sync, fragment, unfragment, merge, optimize, apply-linear-correction). Oracle: the composed executable specifications of C09-C15 applied to the neutral list, truncated to the destination's resolution (ms; cs for ssa/ass; frame for stl, +-1 ns), compared with the destination re-read through OpenFile: count, order, start, end, and text per line with all white space removed; an empty result must give the nothing-to-write error. distinct_nontrivial = distinct (document, destination, operations) cases.",
 		Assumptions: []string{"times are non-negative (negative results of a linear correction are not compared); texts are drawn from an alphabet every format involved can represent (ASCII words; a few Latin letters when teletext is not involved; no '$')", "linear correction is only used as the last operation (its 1 us tolerance would make the outcome of a later fragment ambiguous)"},
 		Cases:       func(tier string) int64 { return tierN(tier, 42*7, 42*70) },
 		Anchors:     []string{"Open", "OpenFile", "Subtitles.Write", "astisub/main.go", "all readers and writers"},
